@@ -82,7 +82,7 @@ func (eng) Cases(seed uint64, tier string) []core.CaseDesc {
 	var cs []core.CaseDesc
 	rep := 6
 	if tier == "thorough" {
-		rep = 60
+		rep = 400
 	}
 	n := 0
 	add := func(c cfg, s uint64) {
